@@ -50,6 +50,7 @@ class Sym:
 
     def __init__(self, case):
         n = len(case["pos"])
+        self.cls = case.get("cls", "N")       # class of the position objects of the pool
         self.pos = [list(p) for p in case["pos"]]
         self.fld = [fields_of(t, z) for t, z in zip(case["tms"], zones_of(case))]
         self.slots = [0] * n
@@ -261,11 +262,19 @@ def list_init_on_foreign_slots(case):
 class Gen:
     """random histories; all randomness from `rng`"""
 
-    def __init__(self, rng, mode, floaty=None):
-        self.rng, self.mode = rng, mode
+    def __init__(self, rng, mode, floaty=None, cls="N"):
+        self.rng, self.mode, self.cls = rng, mode, cls
         n = rng.randrange(3, 9)
         self.n = n
-        if mode == "q":
+        if cls != "N":
+            # a pool of GeoCoords (lon, lat, hgt) / ECEFCoords (X, Y, Z) positions: the walks of c17coords.py
+            from props import c17coords as C
+            self.shape = "geo" if cls == "G" else "ecef"
+            pos = C.gen_geo(rng, n)
+            if cls == "X":
+                pos = [list(C.ecef_of(*p)) for p in pos]
+            ms = rng.random() < 0.4
+        elif mode == "q":
             self.shape = rng.choice(["line", "rect", "axis"])
             bx, by = rng.randrange(-50, 50), rng.randrange(-50, 50)
             z = rng.choice([0, 0, 1, -7])
@@ -316,6 +325,8 @@ class Gen:
                 d += rng.choice([0, 1, 2, 10, 500, 999, rng.randrange(0, 1000)])
             t.append(t[-1] + d)
         self.case = {"kind": "world", "mode": mode, "pos": pos, "tms": t, "hist": []}
+        if cls != "N":
+            self.case["kind"], self.case["cls"] = "world-" + self.shape, cls
         # the `zone` field of the stamps: most pools are stamped in zone 0; some in one other zone; some are merged from two
         # loggers set to different zones (the clock readings stay non-decreasing); some carry a zone per fix
         r = rng.random()
@@ -350,6 +361,8 @@ class Gen:
         k = self.pick_track() if k is None else k
         t = sym.tracks[k]
         kinds = ["a", "a", "a", "S", "S", "s", "f", "f", "d", "L", "c", "q", "w"]
+        if self.cls != "N":
+            kinds.remove("L")             # Track.length (3D, distanceTo) is modelled for ENUCoords only
         if "ds" in t["names"]:
             kinds += ["I", "I", "E"]
         if "abs_curv" in t["names"]:
@@ -419,7 +432,17 @@ class Gen:
             else:
                 c = rng.choice(["x", "y", "x", "y", "z"])
                 cur = sym.pos[h]["xyz".index(c)]
-                v = rng.choice([cur + 1.0, cur - 2.5, cur + 1e-6, cur + 1e4, rng.uniform(-1000, 1000)])
+                if self.cls == "G":           # degrees (longitude wraps, latitude stays on the globe) / metres of height
+                    from props import c17coords as C
+                    if c == "z":
+                        v = cur + rng.choice([1.0, -2.5, 30.0, rng.uniform(-200, 200)])
+                    else:
+                        v = cur + rng.choice([1e-4, -2.5e-3, 1e-6, 0.01, -1e-5, rng.uniform(-0.01, 0.01)])
+                        v = C.wrap_lon(v) if c == "x" else max(-90.0, min(90.0, v))
+                elif self.cls == "X":
+                    v = cur + rng.choice([1.0, -2.5, 1e-3, 100.0, rng.uniform(-1000, 1000)])
+                else:
+                    v = rng.choice([cur + 1.0, cur - 2.5, cur + 1e-6, cur + 1e4, rng.uniform(-1000, 1000)])
                 return self.push(["ex", k, i, c, v, rng.randrange(0, 4)])
         if rng.random() < 0.2:                # the zone of one stamp / of every stamp of the track (setTimeZone), in place
             z = rng.choice([0, 1, 2, -5])
@@ -507,7 +530,7 @@ class Gen:
             self.push([rng.choice(["f", "S", "s", "f"]), 0])
         elif tpl == "order":                  # the computations in different orders, twice, through every entry point
             for _ in range(rng.randrange(2, 6)):
-                self.push([rng.choice(["a", "S", "s", "f", "d", "L", "c", "a"]), 0])
+                self.push([rng.choice(["a", "S", "s", "f", "d", "L" if self.cls == "N" else "c", "c", "a"]), 0])
                 if rng.random() < 0.3 and "ds" in self.sym.tracks[0]["names"]:
                     self.push(["I", 0])
         else:                                 # deep copy vs shared observations
@@ -519,9 +542,10 @@ class Gen:
         self.random_ops(rng.randrange(0, 4))
 
 
-def gen_world(rng, mode=None):
-    mode = mode or ("q" if rng.random() < 0.5 else "f")
-    g = Gen(rng, mode)
+def gen_world(rng, mode=None, cls="N"):
+    """cls: class of the position objects of the pool ("N" ENUCoords, "G" GeoCoords, "X" ECEFCoords; the last two at Float)"""
+    mode = "f" if cls != "N" else mode or ("q" if rng.random() < 0.5 else "f")
+    g = Gen(rng, mode, cls=cls)
     if rng.random() < 0.6:
         g.template()
     else:
@@ -545,4 +569,33 @@ def enum_world(length):
         case = {"kind": "world-enum", "mode": "q", "pos": [list(p) for p in pos], "tms": list(tms), "hist": hist}
         if valid_case(case):
             out.append(case)
+    return out
+
+
+def enum_world_classes():
+    """directed histories on pools of GeoCoords / ECEFCoords positions: the Paris walk of c17coords.py with a section
+    sharing its observations — section first then parent, edit in place / remove / recompute, sum of two sections, deep copy"""
+    from props import c17coords as C
+    paris = [[2.3400, 48.8500, 35.0], [2.3410, 48.8500, 35.0], [2.3410, 48.8510, 36.0], [2.3425, 48.8520, 38.0],
+             [2.3425, 48.8520, 38.0], [2.3450, 48.8515, 37.0]]
+    tms = [1646136000000 + 10000 * k for k in range(len(paris))]
+    tms[3] = tms[2]
+    hists = [
+        [["ext", 0, 1, 3], ["a", 1], ["a", 0], ["S", 0], ["g", 0, "abs_curv"], ["c", 0]],
+        [["a", 0], ["s", 0], ["ex", 0, 1, "y", 48.8505, 0], ["rm", 0, "abs_curv"], ["a", 0], ["rm", 0, "speed"], ["S", 0], ["c", 0]],
+        [["ext", 0, 0, 2], ["sl", 0, 3, 6], ["a", 1], ["f", 2], ["add", 1, 2], ["a", 3], ["S", 3], ["d", 3], ["I", 3]],
+        [["a", 0], ["cp", 0], ["ex", 0, 2, "x", 2.3412, 1], ["rm", 1, "abs_curv"], ["a", 1], ["a", 0], ["et", 0, 4, "sec", 45], ["S", 0]],
+        [["d", 0], ["I", 0], ["D", 0], ["q", 0, "dur"], ["tz", 0, 2], ["f", 0], ["ex", 0, 5, "z", 137.0, 3], ["c", 0], ["d", 0], ["E", 0]],
+    ]
+    out = []
+    for cls in ("G", "X"):
+        pos = paris if cls == "G" else [list(C.ecef_of(*p)) for p in paris]
+        for h in hists:
+            hist = [list(op) for op in h]
+            if cls == "X":
+                hist = [op if op[0] != "ex" else op[:4] + [pos[op[2]]["xyz".index(op[3])] + 25.0] + op[5:] for op in hist]
+            case = {"kind": "world-enum-" + ("geo" if cls == "G" else "ecef"), "mode": "f", "cls": cls,
+                    "pos": [list(p) for p in pos], "tms": list(tms), "hist": hist}
+            if valid_case(case):
+                out.append(case)
     return out
